@@ -537,21 +537,9 @@ pub fn generate(args: &Args) -> Vec<String> {
 
 pub fn run(args: &Args) {
     let mut sink = Sink::new(&args.out, "route");
-    let mut lines = vec![];
-    let mut i = 0;
-    while i < args.extra.len() {
-        if args.extra[i] == "--cases-file" {
-            for l in std::fs::read_to_string(&args.extra[i + 1]).unwrap().lines() {
-                if !l.trim().is_empty() && !l.starts_with('#') {
-                    lines.push(l.to_string());
-                }
-            }
-            i += 1;
-        }
-        i += 1;
-    }
+    let (mut lines, only) = crate::corpus_lines(args);
     let corpus_n = lines.len();
-    if !args.extra.iter().any(|x| x == "--only-cases") {
+    if !only {
         lines.extend(generate(args));
     }
     sink.note("corpus_cases", corpus_n);
